@@ -44,7 +44,7 @@ def check(rep):
     from gbigsmiles.mol_prob import RememberAdd
     from scipy import integrate
 
-    coq = fw.coq_check("C11", ["SrcDist"])
+    coq = fw.coq_check("C11", ["SrcDist", "SrcDistLaw"])
     quick = rep.tier == "quick"
     rnd = random.Random(rep.seed + 11)
     evaluations = 0
